@@ -77,15 +77,24 @@ Definition arg_vector (k : nat) (j : nat) : list Z :=
 Definition trace_eqb (a b : trace) : bool :=
   list_eqb (fun x y => N.eqb (fst x) (fst y) && list_eqb Z.eqb (snd x) (snd y)) a b.
 
-(* 0: the strict run of `before` is excluded (not Done); 1: Done and reproduced by `after`; 2: Done and NOT reproduced *)
+(* 0: the run of `before` without overflow (mode All) is excluded (not Done); 1: Done and reproduced by `after` on
+   the target semantics (mode Wrap); 2: Done and NOT reproduced;
+   3: reproduced, but the invariant between rounds fails: the run of `before` is Done in mode Add (no overflow in
+   + and -) and the run of `after` in mode Add is not the same Done *)
+Definition outcome_same (a b : outcome) : bool :=
+  match a, b with
+  | Done v tr, Done v' tr' => (v =? v') && trace_eqb tr tr'
+  | _, _ => false
+  end.
 Definition sem_case (fuel : nat) (before after : func) (args : list Z) : N :=
+  let inv_ok := match sem Add tw before args fuel with
+                | Done v tr => outcome_same (Done v tr) (sem Add tw after args fuel)
+                | _ => true
+                end in
   match sem All tw before args fuel with
   | Done v tr =>
-      match sem Wrap tw after args fuel with
-      | Done v' tr' => if (v =? v') && trace_eqb tr tr' then 1%N else 2%N
-      | _ => 2%N
-      end
-  | _ => 0%N
+      if outcome_same (Done v tr) (sem Wrap tw after args fuel) then (if inv_ok then 1 else 3)%N else 2%N
+  | _ => if inv_ok then 0%N else 3%N
   end.
 Definition sem_cases (before after : func) : list N :=
   map (fun j => sem_case 300 before after (arg_vector (length (f_params before)) j)) (seq 0 6).
@@ -100,7 +109,8 @@ Definition model (p : pass) (f : func) : option (func * fl) :=
   | PLvn => Some (lvn f, fl0)
   end.
 
-(* [status; wf; unproved-path flag; escape flag; sanity runs reproduced; sanity runs NOT reproduced]
+(* [status; wf; unproved-path flag; escape flag; sanity runs reproduced; sanity runs NOT reproduced;
+    sanity runs on which the invariant between rounds (mode Add) fails]
    status 0: model output = real output; 1: they differ; 2: the model gives no output *)
 Definition b2n (b : bool) : N := if b then 1%N else 0%N.
 Definition count (k : N) (l : list N) : N := N.of_nat (length (filter (N.eqb k) l)).
@@ -108,8 +118,8 @@ Definition tie_case (p : pass) (before after : func) : list N :=
   let wf := b2n (wf_func before) in
   let sc := sem_cases before after in
   match model p before with
-  | Some (m, f) => [(if func_eqb m after then 0 else 1)%N; wf; b2n (fst f); b2n (snd f); count 1 sc; count 2 sc]
-  | None => [2%N; wf; 0%N; 0%N; count 1 sc; count 2 sc]
+  | Some (m, f) => [(if func_eqb m after then 0 else 1)%N; wf; b2n (fst f); b2n (snd f); count 1 sc; count 2 sc; count 3 sc]
+  | None => [2%N; wf; 0%N; 0%N; count 1 sc; count 2 sc; count 3 sc]
   end.
 Definition tie_cases (cs : list (pass * func * func)) : list (list N) :=
   map (fun c => tie_case (fst (fst c)) (snd (fst c)) (snd c)) cs.
